@@ -246,3 +246,76 @@ Print Assumptions C06_wrapint_sign_is_dropped.
 
 Example C06_wrapint_negative : WrapIntZ (-256) = Str [x01; x00] /\ DataInt (ToData (WrapIntZ (-256))) = Some 256%N.
 Proof. vm_compute. split; reflexivity. Qed.
+
+(* ===== Wave 6: the accepted language as a grammar (proofs in Rlp/Grammar.v) ===== *)
+From FFS Require Import Rlp.Grammar.
+
+(* 16. The language of the lenient decoder.  [elem w x] / [elems w l] (Rlp/Grammar.v) is an inductive grammar over
+       the wire bytes, written without the decode loop: single byte < 0x80; 0x80+n (n <= 55) followed by n bytes;
+       0xb7+k (1 <= k <= 8) followed by k length bytes of ANY form (leading zeros allowed, long form allowed
+       below 56) whose big-endian value is the number of payload bytes and is at most 2^31-1; the same two
+       list forms, whose payload must be, in full, a sequence of elements.  [accepts bs t p]: some prefix w of
+       bs with |w| = p is a wire form of t.  For EVERY byte string, without any guard:
+       Decode returns (t, p) exactly when the grammar accepts; Decode returns an error exactly when the input
+       is non-empty and the grammar accepts no prefix; and the grammar is unambiguous and prefix-free. *)
+Theorem C06_accepted_language :
+  (forall bs t p, Decode bs = Ok (Some t, p) <-> accepts bs t p) /\
+  (forall bs, (exists e, Decode bs = Err e) <-> (bs <> [] /\ forall t p, ~ accepts bs t p)) /\
+  (forall w t r w' t' r', elem w t -> elem w' t' -> w ++ r = w' ++ r' -> w = w' /\ t = t' /\ r = r').
+Proof. exact grammar_theorems. Qed.
+Print Assumptions C06_accepted_language.
+
+(* 17. The canonical encoding inside that language: it is one of the wire forms of its tree (on the region the
+       decoder accepts; model encoder and Yellow-Paper function), every wire form of t is at least as long, and a
+       wire form of the canonical length IS the canonical encoding; every wire form denotes a tree of the region. *)
+Theorem C06_grammar_vs_canonical :
+  (forall t, size_ok t = true -> elem (encode t) t) /\
+  (forall tr, tree_size_ok tr = true -> elem (RLP tr) (of_tree tr)) /\
+  (forall w t, elem w t ->
+     size_ok t = true /\ (length (encode t) <= length w)%nat /\ (length (encode t) = length w -> w = encode t)).
+Proof. exact grammar_vs_canonical. Qed.
+Print Assumptions C06_grammar_vs_canonical.
+
+(* non-vacuity of 16/17: non-canonical wire forms derived by the grammar's constructors alone (long form below
+   56 bytes; leading-zero length bytes; 81 05 inside a list; long-form list), a canonical one, an input with a
+   trailing byte, and an input no prefix of which is a wire form *)
+Ltac side := first [ cbn [length]; lia | vm_compute; reflexivity | vm_compute; discriminate ].
+Example C06_grammar_nonvacuous :
+  elem [xb8; x01; x05] (Str [x05]) /\ elem [xb9; x00; x01; x05] (Str [x05]) /\ elem [x05] (Str [x05]) /\
+  elem [xc2; x81; x05] (Lst [Str [x05]]) /\ elem [xf8; x01; x80] (Lst [Str []]) /\
+  accepts [xb8; x01; x05; xff] (Str [x05]) 3%nat /\
+  (forall t p, ~ accepts [xb8; x02; x05] t p) /\ (forall t p, ~ accepts [xc3; x82; x05] t p).
+Proof.
+  split; [apply (E_str_long xb8 [x01] [x05]); side|].
+  split; [apply (E_str_long xb9 [x00; x01] [x05]); side|].
+  split; [apply E_byte; side|].
+  split; [apply (E_lst_short xc2 [x81; x05] [Str [x05]]); try side;
+          apply (Es_cons [x81; x05] (Str [x05]) [] []); [apply (E_str_short x81 [x05]); side | apply Es_nil]|].
+  split; [apply (E_lst_long xf8 [x01] [x80] [Str []]); try side;
+          apply (Es_cons [x80] (Str []) [] []); [apply (E_str_short x80 []); side | apply Es_nil]|].
+  split; [exists [xb8; x01; x05], [xff]; split; [reflexivity|]; split; [apply (E_str_long xb8 [x01] [x05]); side | reflexivity]|].
+  split; intros t p H; apply (proj2 (proj1 C06_accepted_language _ _ _)) in H; vm_compute in H; discriminate.
+Qed.
+
+(* 18. The canonical RLP as a sub-grammar of the accepted language.  [celem] (Rlp/Canon.v) is [elem] with three more
+       side conditions and nothing else: (a) 81 xx requires xx >= 0x80, (b) the long form requires more than 55
+       payload bytes, (c) the length bytes do not start with a zero byte.  Its sentences are exactly the canonical
+       encodings of the trees of the accepted region; hence an accepted input that is not canonical uses one of
+       the three relaxations somewhere. *)
+From FFS Require Import Rlp.Canon.
+Theorem C06_canonical_subgrammar :
+  (forall w t, celem w t <-> (size_ok t = true /\ w = encode t)) /\
+  (forall w t, celem w t -> elem w t).
+Proof. exact canonical_subgrammar. Qed.
+Print Assumptions C06_canonical_subgrammar.
+
+(* non-vacuity of 18: a canonical nested list is derivable; the three non-canonical forms of theorem 16's Example
+   are wire forms (there) but not sentences of the sub-grammar *)
+Example C06_canonical_subgrammar_nonvacuous :
+  celem [xc3; x81; x80; x05] (Lst [Str [x80]; Str [x05]]) /\
+  ~ celem [xb8; x01; x05] (Str [x05]) /\ ~ celem [xb9; x00; x01; x05] (Str [x05]) /\
+  ~ celem [xc2; x81; x05] (Lst [Str [x05]]).
+Proof.
+  split; [apply (proj2 (proj1 C06_canonical_subgrammar _ _)); split; vm_compute; reflexivity|].
+  repeat split; intros H; apply (proj1 (proj1 C06_canonical_subgrammar _ _)) in H; destruct H as [_ H]; vm_compute in H; discriminate.
+Qed.
